@@ -449,26 +449,15 @@ def nstep (n : Node) (r : RawEvent) : Node × Err × Option Result :=
       let (db', res) := append n.db ev'
       ({ n with db := db', cache := markPersisted n.cache (n.clock + 1) ev' res, clock := n.clock + 1 }, .ok, some res)
 
-/-- `mergeMessageEventTerminalPayload` panics ("assignment to entry in nil map") when the payload is
-    the JSON literal `null` and there is a non-empty cached snapshot to merge: json.Unmarshal sets
-    the body map to nil.  Reached from the close/error/cancel path (the event's own cached lane)
-    and from the finish flush (any open cached lane with a snapshot), before anything is proposed. -/
-def panics (n : Node) (r : RawEvent) : Bool :=
-  match normalize r with
-  | none => false
-  | some ev =>
-    n.leads ev.msg.ch && ev.pl.isNull &&
-    (match ev.ty with
-     | .open_ | .delta | .snapshot => false
-     | .finish => (openStates n.cache ev.msg).any fun kl => kl.2.snap != .none
-     | _ => match aget ev.msg n.cache with
-       | none => false
-       | some s => match aget ev.key s.states with
-         | none => false
-         | some st => st.snap != .none)
+/-- Before /repo 8a4c8470d `mergeMessageEventTerminalPayload` panicked ("assignment to entry in
+    nil map") on a JSON `null` payload with a cached snapshot to merge.  Since the repair a `null`
+    payload is merged as the empty object `{}` — exactly what `mergeTerminal` computes from its
+    terminal view `(none, 0, "")` — so no input panics any more.  The harness still recovers that
+    panic and the judge still names it (`viol:panic-null-terminal-payload`) should it come back. -/
+def panics (_ : Node) (_ : RawEvent) : Bool := false
 
-/-- `Node.AppendMessageEvent` including the panic of the unchanged tree (recovered by the caller:
-    nothing was proposed, the cache is untouched) -/
+/-- `Node.AppendMessageEvent` (the panic branch is dead since the repair; kept so that a
+    regression shows up as a model/implementation disagreement plus the named verdict) -/
 def nstepP (n : Node) (r : RawEvent) : Node × Err × Option Result :=
   if panics n r then (n, .panic, none) else nstep n r
 
